@@ -782,6 +782,34 @@ def dev(a, b):
     return float(np.max(np.abs(a - b))) / (sc if sc > 1e-12 else 1.0)
 
 
+def cut_band(ref):
+    """entries of an exact reference that lie below 10 x the truncate_hs threshold: the conversion may legitimately return them as 0"""
+    return np.abs(np.asarray(ref, dtype=np.complex128)) < 10 * Settings.get_atol()
+
+
+def dev_cut(out, ref):
+    """deviation from the exact reference for the output of a conversion that ends in `truncate_hs` (fluctuation cut |x| < eps -> 0):
+    an entry in the band below 10·eps may be returned either as itself or as 0; all other entries as usual"""
+    out = np.asarray(out, dtype=np.complex128); ref = np.asarray(ref, dtype=np.complex128)
+    if out.shape != ref.shape:
+        return float("inf")
+    if ref.size == 0:
+        return 0.0
+    sc = float(np.max(np.abs(ref)))
+    sc = sc if sc > 1e-12 else 1.0
+    band = cut_band(ref)
+    diff = np.abs(out - ref)
+    d1 = float(diff[~band].max()) if (~band).any() else 0.0
+    d2 = float(np.minimum(diff[band], np.abs(out[band])).max()) if band.any() else 0.0
+    return max(d1, d2) / sc
+
+
+def cut_slack(ref, target, gain=1.0):
+    """what the zeroed band entries can contribute to a quantity rebuilt from the truncated output, relative to the target's scale"""
+    sc = float(np.max(np.abs(target))) if np.size(target) else 1.0
+    return float(cut_band(ref).sum()) * 10 * Settings.get_atol() * gain / (sc if sc > 1e-12 else 1.0)
+
+
 def need(cond_dev, sig, what):
     if not (cond_dev <= OTOL):
         raise Fail(sig, f"{what}: deviation {cond_dev:.3g}")
@@ -849,11 +877,11 @@ def chk_density(cfg, rho):
     ref = np.array([np.trace(b.conj().T @ rho) for b in cfg.B])
     for nm, fn in (("state", S.to_vec_from_density_matrix_with_sparsity), ("povm", P.to_vec_from_matrix_with_sparsity)):
         v = call(f"C02/{nm}/matrix->vec", lambda: fn(c, rho))
-        need(dev(v, ref), f"C02/{nm}/matrix->vec/formula", f"{fn.__name__} != tr(B_a^† M)")
+        need(dev_cut(v, ref), f"C02/{nm}/matrix->vec/formula", f"{fn.__name__} != tr(B_a^† M)")
         back = call("C02/state/vec->density", lambda: S.to_density_matrix_from_vec(c, v))
-        need(dev(back, rho), f"C02/{nm}/roundtrip/matrix-vec-matrix", "matrix -> vec -> matrix is not the identity")
+        need(dev(back, rho) - cut_slack(ref, rho), f"C02/{nm}/roundtrip/matrix-vec-matrix", "matrix -> vec -> matrix is not the identity")
     var = call("C02/state/to_var_from_density_matrix", lambda: S.to_var_from_density_matrix(c, rho, on_para_eq_constraint=False))
-    need(dev(var, ref), "C02/state/to_var_from_density_matrix/formula", "to_var_from_density_matrix != tr(B_a^† ρ)")
+    need(dev_cut(var, ref), "C02/state/to_var_from_density_matrix/formula", "to_var_from_density_matrix != tr(B_a^† ρ)")
     if cfg.n == cfg.d ** 2:
         co = call("C02/matrix_basis.calc_matrix_expansion_coefficient", lambda: mb.calc_matrix_expansion_coefficient(rho, c.basis()))
         need(dev(co, ref), "C02/matrix_basis.calc_matrix_expansion_coefficient/formula", "!= tr(B_a^† M)")
@@ -861,9 +889,9 @@ def chk_density(cfg, rho):
         need(dev(back, rho), "C02/matrix_basis/roundtrip/matrix-coefficients-matrix", "calc_mat_from_coefficient_basis(calc_matrix_expansion_coefficient(M)) != M")
         hc = call("C02/matrix_basis.calc_hermitian_matrix_expansion_coefficient_hermitian_basis",
                   lambda: mb.calc_hermitian_matrix_expansion_coefficient_hermitian_basis(rho, c.basis()))
-        need(dev(hc, ref), "C02/matrix_basis.calc_hermitian_matrix_expansion_coefficient_hermitian_basis/formula", "!= tr(B_a^† M)")
+        need(dev_cut(hc, ref), "C02/matrix_basis.calc_hermitian_matrix_expansion_coefficient_hermitian_basis/formula", "!= tr(B_a^† M)")
     var = call("C02/state/to_var_from_density_matrix", lambda: S.to_var_from_density_matrix(c, rho, on_para_eq_constraint=True))
-    need(dev(var, ref[1:]), "C02/state/to_var_from_density_matrix(eq)/formula", "to_var_from_density_matrix(eq) != tr(B_a^† ρ), a ≥ 1")
+    need(dev_cut(var, ref[1:]), "C02/state/to_var_from_density_matrix(eq)/formula", "to_var_from_density_matrix(eq) != tr(B_a^† ρ), a ≥ 1")
 
 
 def chk_povm(cfg, vecs):
@@ -992,10 +1020,11 @@ def chk_choi(cfg, choi):
     outs = {}
     for nm, fn in CHOI_INV:
         outs[nm] = call(f"C02/gate.to_hs_from_choi[{nm}]", lambda: fn(c, choi))
-        need(dev(outs[nm], ref), f"C02/gate.to_hs_from_choi[{nm}]/formula", f"{fn.__name__} != tr(B_a^† Λ_C(B_b))")
+        # the dict / sparse variants end in truncate_hs (entries below the threshold become 0), the plain loop does not
+        need((dev if nm == "loop" else dev_cut)(outs[nm], ref), f"C02/gate.to_hs_from_choi[{nm}]/formula", f"{fn.__name__} != tr(B_a^† Λ_C(B_b))")
     for nm, fn in CHOI_FWD:
         back = call(f"C02/gate.to_choi_from_hs[{nm}]", lambda: fn(c, outs["sparse"]))
-        need(dev(back, choi), f"C02/gate/roundtrip/choi-hs-choi[{nm}]", "Choi -> HS -> Choi is not the identity")
+        need(dev(back, choi) - cut_slack(ref, choi), f"C02/gate/roundtrip/choi-hs-choi[{nm}]", "Choi -> HS -> Choi is not the identity")
 
 
 def chk_kraus(cfg, ks):
